@@ -215,6 +215,37 @@ func c06Gate(p *Program, r *Report) {
 			good := false
 			if fn == lc.MarkKilled {
 				good = len(succ) > 0 && gg.DominatedByEdges(i, succ)
+				if !good && !isC {
+					// `flag = noChildren && CAS(...)`: the stored value is the CAS result itself, or false, on every incoming path
+					casVals := map[ssa.Value]bool{}
+					for c := range cas {
+						if cv, isV := gg.Nodes[c].(ssa.Value); isV {
+							casVals[cv] = true
+						}
+					}
+					var onlyCAS func(v ssa.Value, d int) bool
+					onlyCAS = func(v ssa.Value, d int) bool {
+						if d > 6 {
+							return false
+						}
+						if casVals[v] {
+							return true
+						}
+						if b, isB := constBool(v); isB {
+							return !b
+						}
+						if ph, isPhi := v.(*ssa.Phi); isPhi {
+							for _, e := range ph.Edges {
+								if !onlyCAS(e, d+1) {
+									return false
+								}
+							}
+							return len(ph.Edges) > 0
+						}
+						return false
+					}
+					good = len(casVals) > 0 && onlyCAS(st.Val, 0)
+				}
 			} else if fn == lc.OnKilledFn {
 				zomb := map[edge]bool{}
 				for _, ef := range p.edgeFacts(gg) {
